@@ -3,6 +3,7 @@
 package world
 
 import (
+	"github.com/idena-network/idena-go/core/appstate"
 	"math/big"
 	"sort"
 
@@ -19,28 +20,28 @@ import (
 
 // actors (key indices)
 const (
-	G  = 0  // god
-	V1 = 1  // Verified
-	V2 = 2  // Human
-	N1 = 3  // Newbie
-	C1 = 4  // Candidate
-	I1 = 5  // Invite
-	P  = 6  // Verified, pool owner to be
-	D1 = 7  // Verified, delegator to be
-	D2 = 8  // Newbie, delegator to be
-	X1 = 9  // plain funded
-	X2 = 10 // plain funded
-	Z  = 11 // unfunded, unknown
-	S1 = 12 // Suspended
-	ZM = 13 // Zombie
-	K  = 14 // Killed
-	NEW = 15 // fresh key used as invite/activation target
+	G    = 0  // god
+	V1   = 1  // Verified
+	V2   = 2  // Human
+	N1   = 3  // Newbie
+	C1   = 4  // Candidate
+	I1   = 5  // Invite
+	P    = 6  // Verified, pool owner to be
+	D1   = 7  // Verified, delegator to be
+	D2   = 8  // Newbie, delegator to be
+	X1   = 9  // plain funded
+	X2   = 10 // plain funded
+	Z    = 11 // unfunded, unknown
+	S1   = 12 // Suspended
+	ZM   = 13 // Zombie
+	K    = 14 // Killed
+	NEW  = 15 // fresh key used as invite/activation target
 	NEW2 = 16
 )
 
 var ActorNames = map[int]string{G: "G", V1: "V1", V2: "V2", N1: "N1", C1: "C1", I1: "I1", P: "P", D1: "D1", D2: "D2", X1: "X1", X2: "X2", Z: "Z", S1: "S1", ZM: "ZM", K: "K", NEW: "NEW", NEW2: "NEW2"}
 
-func A(i int) common.Address  { return replica.Addr(i) }
+func A(i int) common.Address   { return replica.Addr(i) }
 func PA(i int) *common.Address { a := replica.Addr(i); return &a }
 
 // Consensus returns the test consensus config with the switch ranges lowered so that
@@ -325,4 +326,25 @@ func WithTips(tx *types.Transaction, tips *big.Int) *types.Transaction {
 		}
 	}
 	return nil
+}
+
+func init() {
+	// two shards of equal size, the in-shard identities of the genesis spread over both: the states in which
+	// the smallest shard is not unique (a new candidate goes to the smallest shard)
+	replica.GenesisEdits["two-equal-shards"] = func(a *appstate.AppState) {
+		a.State.SetShardsNum(2)
+		n := [3]uint32{}
+		for i := 0; i <= NEW2; i++ {
+			if a.State.GetIdentityState(A(i)).IsInShard() {
+				sh := common.ShardId(1 + i%2)
+				a.State.SetShardId(A(i), sh)
+				n[sh]++
+			}
+		}
+		if n[1] < n[2] {
+			n[1] = n[2]
+		}
+		a.State.SetShardSize(1, n[1]+10)
+		a.State.SetShardSize(2, n[1]+10)
+	}
 }
